@@ -70,6 +70,18 @@ def outcomeToks (m : M) (o : Outcome) : List String :=
 
 def wild : String := hx " ?"
 
+/-- two number tokens that denote neighbouring floats (relative distance ≤ 2^-51): `^` is C's `pow` in the reference
+    implementation and Go's `math.Pow` here, and neither is correctly rounded — results may differ in the last bit.
+    Exactly representable small integers never match this way (their relative distance is ≥ 2^-53 · 2^… far above). -/
+def numClose (spec impl : String) : Bool :=
+  (spec.startsWith "i" || spec.startsWith "f") && (impl.startsWith "i" || impl.startsWith "f") &&
+  (match floatOfTok spec, floatOfTok impl with
+   | some a, some b =>
+     let d := Float.abs (a - b)
+     let near : Bool := d ≤ Float.abs a * 4.5e-16
+     near && (Float.abs a ≥ 9007199254740992.0 || ((floatExactInt? a).isNone && (floatExactInt? b).isNone))
+   | _, _ => false)
+
 /-- a Spec token matches an implementation token; fault messages (ending in " ?") match by prefix -/
 def tokMatch (spec impl : String) : Bool :=
   if spec = impl then true
@@ -78,7 +90,7 @@ def tokMatch (spec impl : String) : Bool :=
     let ss := spec.splitOn ","
     let is := impl.splitOn ","
     ss.length = is.length ∧ (ss.zip is).all fun (s, i) =>
-      s = i ∨ (s.endsWith wild ∧ i.startsWith ((s.dropEnd wild.length).toString)) ∨ (s = "s" ++ hx "?" ∧ i.startsWith "s")
+      s = i ∨ numClose s i ∨ (s.endsWith wild ∧ i.startsWith ((s.dropEnd wild.length).toString)) ∨ (s = "s" ++ hx "?" ∧ i.startsWith "s")
         ∨ (s.startsWith ("s" ++ optPosMarker) ∧
             (let r := (s.drop (1 + optPosMarker.length)).toString
              i = "s" ++ r ∨ (i.startsWith ("s" ++ hx "<string>:") ∧ i.endsWith (hx ": " ++ r))))
